@@ -4,6 +4,8 @@
    (Properties/C10dial.v, Model/Dialer.v). *)
 From Coq Require Import Lia.
 From CR Require Import Model.Group Proofs.Group Model.Listener Proofs.Listener Model.Teardown gen.ExtGroup.
+(* send workers against the scheduler's stop: the step relation is chosen by the extracted shape of start() / stop(): Properties/Workers.v *)
+From CR Require Properties.Workers.
 (* (c): the dialer clauses C10_constants, C10_delay_literal, C10_trace_is_chunks, C10_backoff, C10_attempts,
    C10_timeout_is_error, C10_policy, C10_policy_classes, C10_cancel_partial, C10_cancel are stated in Properties/C10dial.v *)
 From CR Require Properties.C10dial.
